@@ -128,6 +128,7 @@ func spec_itemStr(g *Grammar, r int, d int) string { panic("spec") }
 //@ func (*Grammar).ShowCloure
 //@ props C18
 //@ requires wfRules(g) && okItems(g, IC) && (forall k int :: 0 <= k && k < len(IC.GoTo) ==> IC.GoTo[k] != nil && IC.GoTo[k].Sym != nil)
+//@ modifies nothing
 //@ emits [C18] "--------state %d------------\n" arg1 == IC.Index
 //@ emits [C18] "%s-->" arg1 == g.ProductoinRules[it.RuleIndex].LeftPart.Name
 //@ emits [C18] `" %s "` arg1 == sy.Name
